@@ -37,7 +37,8 @@ def fill(check, pending):
           "its shared-state points in turn; threads also construct module-directory Templates directly and call adjust_uri. "
           "The recorded history (invoke/return stamped with the scheduler's global step) is checked for: documented exceptions "
           "only, completely constructed results, freshness relative to the call's start, compile-once/same-object for "
-          "simultaneous first requests, per-thread render output, LRU bound at every scheduling point, no deadlock / leaked lock.",
+          "simultaneous first requests, per-thread render output, the backend arguments of every cached-def call, LRU bound at every "
+          "scheduling point, no deadlock / leaked lock / thread left waiting on a Condition.",
           "Line-level pre-emption is a subset of CPython's real schedules (no false interleavings) but not all of them; "
           "Beaker's real locks are replaced by a lock-free reference cache backend; sampling, not proof.",
           "deterministic simulation: seeded thread schedules (baton passing at intercepted points) + history check", "DESIGN.md 3/C16")
@@ -62,7 +63,9 @@ def fill(check, pending):
           "combination, static and cache_key keys, buffered/filter, cache_* arguments at three levels) sharing one backend, "
           "including URIs that differ only in punctuation. Execution witnesses (a tick counter through the context), output "
           "text and the arguments a recording backend receives are compared with a reference cache model on every render; "
-          "real Beaker memory/file/dbm and dogpile backends run on the simulated clock.",
+          "real Beaker memory (with and without a cache directory) / file / dbm and dogpile backends run on the simulated clock; "
+          "templates also inherit through two- and three-level chains whose ancestors have cached defs of their own, and are "
+          "wrapped as ModuleTemplate twins; a render that raises anything but the injected failures is a violation.",
           "Sampling, not proof. Expiry exactly at stored+timeout accepted either way; dogpile's plug-in is not namespaced by "
           "template (own regions per template there) and has no set(); Beaker/dogpile run single-threaded.",
           "deterministic simulation: seeded histories on a simulated clock + fault injection vs reference cache model", "DESIGN.md 3/C17")
@@ -75,6 +78,7 @@ def fill(check, pending):
           "get_def(name).render) of 2-4 generated programs must agree, and source / code / has_def / list_defs must be the "
           "template's own. The 'all generated templates' axis is only SAMPLED through feature fragments: it is input "
           "generation, which this technique does not decide.",
-          "Agreement between paths is the oracle (no reference renderer); program space sampled; three hash seeds per run out of nine.",
+          "Agreement between paths is the oracle (no reference renderer; one absolute expectation: a relative uri resolves next to "
+          "the template that uses it); program space sampled; three hash seeds per run out of nine.",
           "deterministic simulation: multi-process history (kill / restart with other PYTHONHASHSEED) + differential agreement across paths",
           "DESIGN.md 3/C08")
